@@ -163,3 +163,18 @@ Fixpoint tables_diff (g s : list (string * list (N * string))) : option (string 
   end.
 Definition table_of (ts : list (string * list (N * string))) (fam : string) : list (N * string) :=
   match find (fun nt => String.eqb (fst nt) fam) ts with Some nt => snd nt | None => [] end.
+
+(* ---- second round: every dispatch site of the repository ---- *)
+(* first site that is not a known one, or that has no table and no recorded indirection *)
+Definition site_problem (known : list string) (indirect : list (string * string)) (sites : list (string * N)) : option string :=
+  match find (fun s => negb (existsb (String.eqb (fst s)) known)
+                       || ((snd s =? 0)%N && negb (existsb (fun i => String.eqb (fst i) (fst s)) indirect))) sites with
+  | Some s => Some (fst s)
+  | None => None
+  end.
+(* first table with a repeated id *)
+Definition dup_problem (ts : list (string * list (N * string))) : option (string * N) :=
+  match find (fun nt => match dup_key (snd nt) with Some _ => true | None => false end) ts with
+  | Some nt => match dup_key (snd nt) with Some k => Some (fst nt, k) | None => None end
+  | None => None
+  end.
